@@ -7,9 +7,11 @@ import (
 )
 
 // Shims for package sync. Lock / RLock / Wait / positive Add / Once.Do / Map operations are
-// scheduling points; Unlock / Done are release operations (they never block and, in a program whose
-// shared accesses are ordered by these operations, commute with the other threads' steps up to the
-// releasing thread's next scheduling point), so they are recorded but do not yield.
+// scheduling points. Unlock / RUnlock / Done are recorded but do not yield: they are left-movers (no
+// other thread can have operated on the mutex while it was held, or completed a Wait before the Done;
+// TryLock, which would break this, is not offered), so by Lipton's reduction the block "… Unlock" is
+// atomic. close(ch), context cancellation and ctx.Err() are NOT left/right movers (another thread may
+// send, poll or read) and therefore are scheduling points.
 //
 // The documented misuse rules of sync are modelled as panics with the runtime's messages:
 //   - "sync: negative WaitGroup counter"
@@ -42,20 +44,7 @@ func (m *Mutex) Lock() {
 	ex.block(&pend{kind: kLock, obj: o, ready: func() bool { return !m.locked }, fire: func() { m.locked = true }})
 }
 
-func (m *Mutex) TryLock() bool {
-	if passthrough {
-		return m.real.TryLock()
-	}
-	ex := mustExec("Mutex.TryLock")
-	o := m.o(ex)
-	got := false
-	ex.block(&pend{kind: kLock, obj: o, label: "try", fire: func() {
-		if !m.locked {
-			m.locked, got = true, true
-		}
-	}})
-	return got
-}
+// TryLock is deliberately absent: with polling lock operations Unlock would have to be a scheduling point.
 
 func (m *Mutex) Unlock() {
 	if passthrough {
